@@ -53,8 +53,11 @@ def xor (a x : BV) : BV := ⟨a.len, a.val ^^^ (x.val % 2 ^ a.len)⟩
 def not (a : BV) : BV := ⟨a.len, 2 ^ a.len - 1 - a.val⟩
 
 -- shifts ----------------------------------------------------------------------------------------
-def shl (a : BV) (k : Nat) : BV := ⟨a.len, (a.val <<< k) % 2 ^ a.len⟩
-def shr (a : BV) (k : Nat) : BV := ⟨a.len, a.val >>> k⟩
+/-- `a << k` = `(val · 2^k) mod 2^len` (lemma `BV.shl_val`); the guard only keeps huge amounts
+(`k` up to `2^128`) computable. -/
+def shl (a : BV) (k : Nat) : BV := if a.len ≤ k then ⟨a.len, 0⟩ else ⟨a.len, (a.val <<< k) % 2 ^ a.len⟩
+/-- `a >> k` = `⌊val / 2^k⌋` (lemma `BV.shr_val`, for well-formed `a`) -/
+def shr (a : BV) (k : Nat) : BV := if a.len ≤ k then ⟨a.len, 0⟩ else ⟨a.len, a.val >>> k⟩
 def shlIn (a : BV) (b : Bool) : BV × Bool :=
   if a.len = 0 then (a, b) else (⟨a.len, (2 * a.val + b.toNat) % 2 ^ a.len⟩, a.bit (a.len - 1))
 def shrIn (a : BV) (b : Bool) : BV × Bool :=
